@@ -764,9 +764,8 @@ class Sum(Binary):
 
     this is used to optimize memory addressing code.
     """
-    def __init__(self, ebpf, left, right):
-        super().__init__(ebpf, left, right, Opcode.ADD,
-                         left.signed or right.value < 0, False)
+    def __init__(self, ebpf, left, right, signed):
+        super().__init__(ebpf, left, right, Opcode.ADD, signed, False)
 
     def __add__(self, value):
         try:
@@ -774,7 +773,8 @@ class Sum(Binary):
         except TypeError:
             return super().__add__(value)
         return Sum(self.ebpf, self.left,
-                   Constant(self.ebpf, self.right.value + value))
+                   Constant(self.ebpf, self.right.value + value),
+                   self.signed or value < 0)
 
     __radd__ = __add__
 
@@ -784,7 +784,8 @@ class Sum(Binary):
         except TypeError:
             return super().__sub__(value)
         return Sum(self.ebpf, self.left,
-                   Constant(self.ebpf, self.right.value - value))
+                   Constant(self.ebpf, self.right.value - value),
+                   self.signed or value < 0)
 
 
 class AndExpression(Binary):
@@ -890,7 +891,8 @@ class Register(Expression):
     def __add__(self, value):
         if self.long and not self.fixed:
             try:
-                return Sum(self.ebpf, self, Constant(self.ebpf, index(value)))
+                return Sum(self.ebpf, self, Constant(self.ebpf, index(value)),
+                           self.signed or value < 0)
             except TypeError:
                 pass
         return super().__add__(value)
@@ -900,7 +902,8 @@ class Register(Expression):
     def __sub__(self, value):
         if self.long and not self.fixed:
             try:
-                return Sum(self.ebpf, self, Constant(self.ebpf, -index(value)))
+                return Sum(self.ebpf, self, Constant(self.ebpf, -index(value)),
+                           self.signed or value < 0)
             except TypeError:
                 pass
         return super().__sub__(value)
